@@ -67,9 +67,13 @@ Fail(a, op, x) ==
 \* preserved), so in-place mutations of shared objects are kept out of the explored behaviours for such alias groups.
 Aliased(a) == \E b \in Live : b # a /\ h[b].grp = h[a].grp
 FreshGrp == Len(h) + 1
-Copy(a) == New([h[a] EXCEPT !.grp = FreshGrp], "copy", a, "-", "-")
-CopyConv(a, f, fr) ==
-  New([h[a] EXCEPT !.form = f, !.frame = fr, !.cov = CovAfterFrame(h[a], fr), !.grp = FreshGrp], "copyconv", a, f, fr)
+\* copy() has three DOORS - no argument, form= / frame= keywords, same=<an object whose form and frame are to be taken> - which
+\* the contract does not tell apart: the door is part of the recorded action (TLC enumerates every choice), not of the effect
+CopyDoors == {"copy", "copy-kw", "copy-same"}
+CopyConvDoors == {"copyconv", "copyconv-same"}
+Copy(a, door) == New([h[a] EXCEPT !.grp = FreshGrp], door, a, "-", "-")
+CopyConv(a, f, fr, door) ==
+  New([h[a] EXCEPT !.form = f, !.frame = fr, !.cov = CovAfterFrame(h[a], fr), !.grp = FreshGrp], door, a, f, fr)
 SetForm(a, f) == f # h[a].form /\ tok' = tok /\ Upd(a, [h[a] EXCEPT !.form = f], "setform", f, "-")
 SetFrame(a, fr) ==
   fr # h[a].frame /\ ~(Aliased(a) /\ h[a].cov.present /\ h[a].cov.fr = h[a].frame) /\ tok' = tok /\ Upd(a, [h[a] EXCEPT !.frame = fr, !.cov = CovAfterFrame(h[a], fr)], "setframe", fr, "-")
@@ -94,8 +98,8 @@ AsSV(a) == h[a].kind = "orbit" /\ New([h[a] EXCEPT !.kind = "statevector"], "ass
 Next ==
   /\ Can
   /\ \E a \in Live :
-       \/ Copy(a) \/ Pickle(a) \/ AsOrbit(a) \/ AsSV(a)
-       \/ \E f \in Forms, fr \in Frames : (f # h[a].form \/ fr # h[a].frame) /\ CopyConv(a, f, fr)
+       \/ (\E d \in CopyDoors : Copy(a, d)) \/ Pickle(a) \/ AsOrbit(a) \/ AsSV(a)
+       \/ \E f \in Forms, fr \in Frames, d \in CopyConvDoors : (f # h[a].form \/ fr # h[a].frame) /\ CopyConv(a, f, fr, d)
        \/ \E f \in Forms : SetForm(a, f)
        \/ \E fr \in Frames : SetFrame(a, fr)
        \/ FailForm(a) \/ \E w \in {"unknown", "Hill", "unconnected", "nocentre"} : FailFrame(a, w)
@@ -108,7 +112,7 @@ Spec == Init /\ [][Next]_vars
 
 \* the contract as action properties of the reference model itself (sanity of the model)
 OthersUntouched ==
-  [][\A b \in 1..Len(h) : (hist' # hist /\ hist'[Len(hist')].a # b /\ hist'[Len(hist')].op \notin {"copy", "copyconv", "pickle", "asorbit", "assv"})
+  [][\A b \in 1..Len(h) : (hist' # hist /\ hist'[Len(hist')].a # b /\ hist'[Len(hist')].op \notin (CopyDoors \cup CopyConvDoors \cup {"pickle", "asorbit", "assv"}))
         => h'[b] = h[b]]_vars
 FailuresAreAtomic == [][last' = "raise" => h' = h]_vars
 CopiesEqualSource ==
